@@ -273,6 +273,10 @@ def random_sim_case(r, sim, nmax=14, tmaxes=None):
         if model == 'SIR' and rest and r.random() < 0.45:
             case['R0'] = sorted(r.sample(rest, r.randint(1, min(3, len(rest)))))
             case['R0_form'] = r.choice(['list', 'set', 'tuple'] if lab_scheme not in ('tuple', 'mixed') else ['list', 'set'])
+            if sim in ('discrete_SIR', 'basic_discrete_SIR', 'percolation_based_discrete_SIR') and r.random() < 0.35:
+                # these three document initial_recovereds "as for initial_infecteds": a single node is allowed
+                case['R0'] = case['R0'][:1]
+                case['R0_form'] = 'single'
         else:
             case['R0'] = []
     if sim in WEIGHTED:
